@@ -9,10 +9,17 @@ checks = sys.argv[6:]
 root = os.path.dirname(os.path.dirname(os.path.abspath(__file__)))
 dst = os.path.join(root, "seeded", sid)
 
-c = subprocess.run([os.path.join(root, "tools/confirm_mutant.sh"), wt, mdir], capture_output=True, text=True)
-confirm_lines = [l for l in c.stdout.splitlines() if l.strip()]
+pre = os.path.join(mdir, "confirm.txt")
+if os.path.exists(pre):
+    # confirmed beforehand (tools/confirm_round.sh runs the scratch worktrees side by side)
+    confirm_lines = [l for l in open(pre).read().splitlines() if l.strip()]
+    rc = 0 if confirm_lines and confirm_lines[-1] == "CONFIRMED" else 1
+else:
+    c = subprocess.run([os.path.join(root, "tools/confirm_mutant.sh"), wt, mdir], capture_output=True, text=True)
+    confirm_lines = [l for l in c.stdout.splitlines() if l.strip()]
+    rc = c.returncode
 print("\n".join(confirm_lines))
-if c.returncode != 0:
+if rc != 0:
     print("not confirmed: not kept")
     sys.exit(1)
 t = subprocess.run([os.path.join(root, "tools/try_mutant.sh"), os.path.join(mdir, "patch.diff")] + checks, capture_output=True, text=True)
